@@ -223,6 +223,11 @@ class BaseSection(base.Sectionable):
         new_section = term.get_section_by_path(
             path) if path is not None else term.sections[0]
 
+        # Make sure the referenced Section can be merged before the current
+        # state is changed; there is no rollback.
+        self.merge_check(new_section, False)
+        self._merge_name_check(new_section)
+
         if self._include is not None:
             self.clean()
         self._include = new_value
@@ -264,6 +269,12 @@ class BaseSection(base.Sectionable):
 
         # raises exception if path cannot be found
         new_section = self.get_section_by_path(new_value)
+
+        # Make sure the referenced Section can be merged before the current
+        # state is changed; there is no rollback.
+        self.merge_check(new_section, False)
+        self._merge_name_check(new_section)
+
         if self._link is not None:
             self.clean()
         self._link = new_value
